@@ -630,6 +630,20 @@ func streamDepparse(g *core.G) {
 		"foo [ ]", "$x", "foo\x00bar", "foo (=1)", "foo ( = 1)", "foo (<< 1)", "foo (< 1)", "foo (> 1)", "foo [!]", "foo:", "foo: [a]", "a|b", "a | | b", ",a", "a,,b"} {
 		emitDepText(g, s)
 	}
+	// two different names in one field that collide under a cheap 32-bit hash (FNV, CRC-32,
+	// Adler-32): a table keyed by such a hash without comparing the names confuses them
+	for _, pr := range core.CollidingPairs(archWords, "-") {
+		for _, ast := range [][][]gPoss{
+			{{{Name: "foo", Archs: []string{pr[0], pr[1]}}}},
+			{{{Name: "foo", Qual: pr[0]}}, {{Name: "bar", Qual: pr[1]}}},
+			{{{Name: "foo", Archs: []string{pr[0]}}, {Name: "bar", Archs: []string{pr[1]}, ArchNeg: true}}},
+			{{{Name: pr[0]}}, {{Name: pr[1]}, {Name: pr[0], Stages: [][]gStage{{{Name: pr[1]}, {Name: pr[0], Not: true}}}}}},
+		} {
+			s := renderDep(r, ast, 1)
+			emitDepText(g, s)
+			g.Emit("law-depast", core.Hex(s), core.Hex(astDump(ast)))
+		}
+	}
 	n := g.N(3000, 150000)
 	for i := 0; i < n; i++ {
 		ast := genDepAST(r)
@@ -646,6 +660,12 @@ func streamDepparse(g *core.G) {
 		}
 	}
 }
+
+// the words of dpkg's abitable / ostable / cputable (and a few more): architecture-like names
+var archWords = []string{"gnu", "musl", "uclibc", "gnueabi", "gnueabihf", "musleabihf", "gnuabi64", "gnuabin32", "gnuspe", "gnux32", "gnulp", "eabi", "eabihf", "bsd", "base",
+	"linux", "kfreebsd", "knetbsd", "kopensolaris", "hurd", "darwin", "freebsd", "netbsd", "openbsd", "dragonflybsd", "aix", "solaris", "mint", "nto", "freertos", "interix", "uclinux", "none",
+	"amd64", "i386", "arm", "arm64", "armel", "armhf", "armeb", "armv6k", "armv7r", "avr32", "alpha", "hppa", "ia64", "m32r", "m68k", "mips", "mipsel", "mips64", "mips64el", "mipsr6",
+	"nios2", "or1k", "powerpc", "powerpcspe", "ppc64", "ppc64el", "riscv64", "s390", "s390x", "sh3", "sh4", "sparc", "sparc64", "ultrasparc", "tilegx", "x32", "loong64", "arc", "any"}
 
 func isWord(s string) bool {
 	for i := 0; i < len(s); i++ {
